@@ -6,6 +6,9 @@ import (
 )
 
 func (p *Pool) Run(ctx context.Context) {
+	p.lifeM.Lock()
+	defer p.lifeM.Unlock()
+
 	if !p.runM.TryLock() {
 		slog.Warn("worker pool already running")
 		return
